@@ -79,8 +79,23 @@ func init() {
 			if tier == "thorough" {
 				maxTx = 10
 			}
-			p.Scenario = g.Scenario(ScenOpts{MinTx: 2, MaxTx: maxTx, MaxOps: 4, PoisonPct: 5, DelPct: 40, RollbackPct: 12, BadRollbackPct: 20,
-				AsyncPct: 30, MultiPct: 30, PipelinePct: 40}, p.Knobs.Targets)
+			if g.chance(1, 3) {
+				// long histories of small requests piled onto one sub-tree: nested deletes, re-creation beneath them,
+				// unrelated commits in between
+				p.Profile = "sequential-gnmi-model+focus"
+				p.Knobs.Targets = []string{"t1"}
+				g.SetFocus(75)
+				p.Scenario = g.Scenario(ScenOpts{MinTx: 5, MaxTx: maxTx + 4, MaxOps: 1 + g.pick(2), PoisonPct: 0, DelPct: 45, RollbackPct: 5, BadRollbackPct: 20,
+					AsyncPct: 30, MultiPct: 0, PipelinePct: 25}, p.Knobs.Targets)
+				if g.chance(1, 2) {
+					// structured instead of random: ladders of ancestor deletes, re-creation, an unrelated commit
+					p.Profile = "sequential-gnmi-model+ladder"
+					p.Scenario = g.LadderScenario("t1", maxTx+6)
+				}
+			} else {
+				p.Scenario = g.Scenario(ScenOpts{MinTx: 2, MaxTx: maxTx, MaxOps: 4, PoisonPct: 5, DelPct: 40, RollbackPct: 12, BadRollbackPct: 20,
+					AsyncPct: 30, MultiPct: 30, PipelinePct: 40}, p.Knobs.Targets)
+			}
 			p.Probes = g.GenQueries(p.Knobs.Targets, 6)
 			p.Sched = g.RandSched()
 			// devices are irrelevant here: connect them lazily so that runs stay short
